@@ -315,12 +315,27 @@ Theorem C06_law_minres_amount_wf : forall sp xs got,
 Proof. exact law_minres_amount_wf. Qed.
 Print Assumptions C06_law_minres_amount_wf.
 
+(* ties are visited in SPEC order (sort.Sort is an insertion sort below 12 elements): the model's visiting order
+   keeps, for every priority, the tasks of that priority in the order of spec.tasks; law 212 accepts, for
+   fewer than 12 tasks, only the amount over that order (round 6: a Less that breaks ties by task name) *)
+Theorem C06_sort_prio_stable : forall l p, filter (same_prio p) (sort_prio l) = filter (same_prio p) l.
+Proof. exact sort_prio_stable. Qed.
+Print Assumptions C06_sort_prio_stable.
+
+Theorem C06_law_minres_stable_sound : forall sp xs got,
+  law_minres_stable sp xs got = true -> (length (s_tasks sp) < 12)%nat ->
+  let l := ptasks sp xs in let o := sort_prio l in
+  got = calc_min_resources_sorted (s_min sp) o (total_min l) /\
+  desc_prio o = true /\ Permutation o l /\ forall p, filter (same_prio p) o = filter (same_prio p) l.
+Proof. exact law_minres_stable_sound. Qed.
+Print Assumptions C06_law_minres_stable_sound.
+
 (* law 205 MEANS the mirror clause *)
 Theorem C06_law_pg_sound : forall sp xs jp q g,
   law_pg sp xs jp q g = true ->
   g_minmember g = s_min sp /\ g_prio g = jp /\ q = true /\
   (forall t, In t (s_tasks sp) -> tm_get (t_name t) (g_taskmin g) = Some (min_task_member t)) /\
-  law_minres sp xs (g_res g) = true.
+  law_minres_stable sp xs (g_res g) = true.
 Proof. exact law_pg_sound. Qed.
 Print Assumptions C06_law_pg_sound.
 
@@ -383,3 +398,11 @@ Example C06_nonvacuous_crash_restart_retry :
      sync_job (run w1 [ORestart; OSyncPods; OSyncJob; OSyncPg]) URunningSync [] = (w3, false, wr3) /\
      w_pods w3 = w_pods w1 /\ w_pods w3 <> pass true ex_spec ex_pods).
 Proof. exact crash_restart_retry_example. Qed.
+
+Example C06_nonvacuous_minres_stable :
+  let sp := mkSpec [mkTask 2 2 None [] None; mkTask 1 2 None [] None] 1 None 3 [] in
+  let xs := [mkExtra 100 64 1; mkExtra 250 0 1] in
+  calc_min_resources sp xs = mkR 1 100 64 /\
+  law_minres_stable sp xs (mkR 1 100 64) = true /\
+  law_minres sp xs (mkR 1 250 0) = true /\ law_minres_stable sp xs (mkR 1 250 0) = false.
+Proof. exact minres_stable_example. Qed.
